@@ -63,7 +63,7 @@ Ltac s0 :=
       end
     | solve [auto with s0]
     | solve [apply Cont_const]
-    | progress cbn [arg_req arg_opt consp negb null items car_of cdr_of] ].
+    | progress cbn [arg_req arg_opt consp listp orb negb null items car_of cdr_of] ].
 
 (* administrative steps on the model side only *)
 Ltac peel :=
@@ -73,7 +73,7 @@ Ltac peel :=
       | |- Cont _ (fun f => bind (lift (Ok _)) _) => apply Cont_lift_ok_l; cbv beta iota
       | |- Cont _ (fun f => bind (bind _ _) _) => apply Cont_assoc
       end
-    | progress cbn [arg_req arg_opt consp negb null items car_of cdr_of] ].
+    | progress cbn [arg_req arg_opt consp listp orb negb null items car_of cdr_of] ].
 
 Hint Resolve eval_C rec1_C : s0.
 Hint Extern 1 (Cont (eval_bq rec1 _) _) => eapply (eval_bq_C rec1 recm Hrec); apply Nat.le_refl : s0.
@@ -175,7 +175,7 @@ Proof.
   all: try solve [repeat (match goal with
                           | |- Cont (match ?x with _ => _ end) _ => destruct x
                           end; try apply Cont_unspecified);
-                  unfold do_let, call, eval_progn; cbn [arg_req consp negb items]; s0].
+                  unfold do_let, call, eval_progn; cbn [arg_req listp consp null orb negb items]; s0].
   - (* dolist *)
     destruct args as [| | | | | | | |sp body| | | | | | | | | | |]; try apply Cont_unspecified.
     destruct sp as [| | | | | | | |var sp2| | | | | | | | | | |]; try apply Cont_unspecified.
